@@ -562,6 +562,33 @@ pub fn run_case(w: &World, case: &Case, seed: u64, out: &mut Out) {
         }
     };
 
+    // ---------------- a multipath descriptor itself is not derivable
+    if n_alts > 0 && !xprv {
+        let at = catch_unwind(AssertUnwindSafe(|| d.at_derivation_index(7).map(|_| ()).map_err(|e| err_class(&e))));
+        out.count("derivations");
+        match at {
+            Ok(Err(e)) => {
+                out.h("derivation_error_class", &e);
+                let cls = match e.as_str() {
+                    "Wildcard" => "EWildcard",
+                    "Multipath" => "EMultipath",
+                    "HardenedStep" => "EHardenedStep",
+                    _ => "ENoWildcard",
+                };
+                out.kcases.push(format!("({}, 7, {}, (KErr {}), None)", case.id, gen_desc_term(&case.keys), cls));
+            }
+            Ok(Ok(())) => out.violation(
+                "derive-accepted-underivable",
+                case,
+                &s,
+                Some(7),
+                "at_derivation_index succeeds on a descriptor that still has multipath keys",
+                "",
+            ),
+            Err(_) => out.violation("derive-panic", case, &s, Some(7), "derivation panicked", ""),
+        }
+    }
+
     // ---------------- derivation at indices, scripts of every derived descriptor
     let has_wild = case.keys.iter().any(|k| k.has_wildcard());
     let mut first_definite: Option<(Vec<PublicKey>, u32)> = None;
